@@ -116,6 +116,19 @@ def judge (prop : String) (j : Json) : R Verdict := do
         let n ← str n; let c ← str c
         if c != "err:MissingTxArg:" ++ n then spec := spec ++ ["missing_arg:" ++ c]
       | _ => throw "bad missing"
+  if prop == "C14" then
+    -- any stage of the real pipeline that panicked
+    for f in ["after_args", "after_inputs", "after_fees", "reduced0", "reduced0_twice", "compiled0",
+              "applied", "full", "full_twice"] do
+      match (fieldD obs f).getObjVal? "panic" with
+      | .ok site => spec := spec ++ ["no-panic:" ++ f ++ ":" ++ (match site with | .str s => s | _ => "")]
+      | .error _ => pure ()
+    for m in ← arr (← field obs "missing") do
+      match ← arr m with
+      | [_, c] =>
+        let c ← str c
+        if c.startsWith "panic:" then spec := spec ++ ["no-panic:resolve_tx:" ++ c]
+      | _ => pure ()
   if prop == "C07" then
     let r0 := fieldD obs "reduced0"
     let r0t := fieldD obs "reduced0_twice"
